@@ -86,9 +86,11 @@ func drawParams(k int, r *prng.R, tier string) caseParams {
 		p.proto.Gov = true
 	}
 	if p.kind == "gc" {
-		p.proto.MTB = uint32(r.Range(4, 8))
+		// MaxTraceableBlocks up to 8 GC periods and more: the timestamp of the GC target may have left the
+		// gcBlockTimes LRU (8 entries), then the transfer logs are not collected
+		p.proto.MTB = uint32(r.Range(4, 20))
 		p.local = Local{RUB: true, GCP: uint32(r.Range(2, 3)), Timer: true}
-		p.n = r.Range(18, 26)
+		p.n = int(p.proto.MTB) + r.Range(14, 18)
 		p.pfMille = 250
 		p.hdrs = false
 	}
